@@ -116,6 +116,7 @@ def r4(ctx: Ctx) -> None:
     # insertion (OrderBook.add)
     f = ctx.func("OrderBook.add")
     n = 0
+    unmodelled = False
     for p in normal_paths(ctx.paths(f.qualname)):
         placed = [e for e in stores(p, "placed_at")]
         ins = [e for e in p.walk_events() if (e.kind == "call" and e.name in ("append",) and (_bucket_key(e) is not None or _new_bucket(p, e) is not None))]
@@ -129,9 +130,21 @@ def r4(ctx: Ctx) -> None:
         k = _bucket_key(ins[0]) if ins and _bucket_key(ins[0]) is not None else (_new_bucket(p, ins[0]) if ins else None)
         ok = len(ins) == 1 and k is not None and poly_key(to_poly(k, atom)) == poly_key(to_poly(("bin", "+", pv, ("attr", ("sym", "order"), "ttl")), atom)) \
             and key(ins[0].args[0]) == "order"
+        if not ok:
+            # the expiry index is kept in another form (a heap of entries, ordered dictionaries as buckets, records
+            # stored next to the orders): some write registers the order, how is not modelled
+            other_reg = [e for e in p.walk_events() if (e.kind == "store" and e.attr is None and e.base is not None and "expir" in key(strip_ver(e.base))) or
+                         (e.kind == "call" and e.data.get("mutates") is not None and "expir" in key(strip_ver(e.data["mutates"])) and (e.name != "append" or key(e.args[0]) != "order"))]
+            wrapped = len(ins) == 1 and key(ins[0].args[0]) != "order" and any(key(x) == "order" for x in subterms(strip_ver(ins[0].args[0])))
+            if (not ins and other_reg) or wrapped:
+                ctx.unrec(f, (other_reg[0].node if other_reg else ins[0].node), "insert key = stamped placed_at + ttl, value = the order", "the order is registered for expiry in a form that is not modelled (no plain `bucket.append(order)`)")
+                unmodelled = True
+                continue
         ctx.check(ok, f, ins[0].node if ins else f.node, "insert key = stamped placed_at + ttl, value = the order", f"expire_time_list[{short(pv)} + order.ttl].append(order)",
                   f"key={short(k)}; {len(ins)} insertion(s)")
         ctx.check(key(strip_ver(pv)) == "self.time", f, placed[0].node, "acceptance time is the book's clock", "order.placed_at = self.time", short(pv))
+    if unmodelled:
+        return  # deletion and reaping go with the same representation
     ctx.require(n >= 1, "OrderBook.add: no path indexes an order with ttl")
     # deletion (OrderBook._remove)
     f = ctx.func("OrderBook._remove")
@@ -327,6 +340,9 @@ def r6(ctx: Ctx) -> None:
         top = [pol for c, pol, _ in p.conds if key(strip_ver(c)) in ("(order == self.priority_queue[0])", "(self.priority_queue[0] == order)")]
         anymut = [e for e in p.walk_events() if (e.kind == "call" and e.data.get("mutates") is not None and key(strip_ver(e.data["mutates"])).endswith("priority_queue")) or (e.kind in ("store", "del") and e.attr is None and key(strip_ver(e.base)).endswith("priority_queue"))]
         ok = len(out) == 1 and (out[0].name != "heappop" or (top and top[0]))
+        if not ok and len(out) == 1 and out[0].name == "heappop" and not top and p.conds:
+            ctx.unrec(f, f.node, "the order leaves the priority queue (pop only when it is the top)", "the test under which the top is popped is not `order == self.priority_queue[0]`; what it compares is not decided", p.describe()[:140])
+            continue
         if not ok and anymut and not out:
             ctx.unrec(f, f.node, "the order leaves the priority queue", "removal idiom not recognised (neither heappop-of-top nor remove(order)): " + ", ".join(sorted({getattr(e, "name", e.kind) for e in anymut})))
             continue
